@@ -38,6 +38,20 @@ def enhance(f):
     return lambda ty, a, b: correct(f(a, b), ty)
 
 
+def is_defined(operation, ty, b):
+    """Test if the operation has a defined result for right operand b.
+
+    A remainder of a division by zero and a shift by a negative amount or
+    by the width of the type or more are left for run time.
+    """
+    if operation == "%":
+        return b != 0
+    elif operation in ("<<", ">>"):
+        return 0 <= b < ty.bits
+    else:
+        return True
+
+
 class ConstantFolder(BlockPass):
     """Try to fold common constant expressions"""
 
@@ -64,6 +78,9 @@ class ConstantFolder(BlockPass):
                 and value.ty.is_integer
                 and self.is_const(value.a)
                 and self.is_const(value.b)
+                and is_defined(
+                    value.operation, value.ty, self.eval_const(value.b).value
+                )
             )
         else:
             return False
